@@ -141,6 +141,10 @@ class BaseHandler:
             and (self.selector.find(".\\") == -1)
             and (self.selector.find("\\\\") == -1)
             and (self.selector.find("\0") == -1)
+            # "/dir/." is "/dir" under another name: everything below it
+            # would be "/dir/./x" and refused above, so the directory would
+            # list (and cache) as empty
+            and not self.selector.endswith("/.")
         )
 
     def canhandlerequest(self) -> bool:
